@@ -327,12 +327,14 @@ package iscp
 
 //@ func (*Upstream).clearBuffer
 //@   inline
+//@   requires held(u.mu)
 //@ func (sequenceNumberGenerator).CurrentValue
 //@   inline
 
 //@ func (*Upstream).validateState
 //@   props C01
 //@   nopanic
+//@   requires held(u.mu)
 //@   requires u.sequence != nil && u.sendBufferDataPointsCount >= 0
 //@   modifies nothing
 //@   ensures imp(result == nil, u.sequence.Current < 4294967295)
@@ -341,6 +343,7 @@ package iscp
 // points (same slice), ids pairwise distinct; numbered with the next sequence number.
 //@ func (*Upstream).toUpstreamChunk
 //@   props C01
+//@   requires held(u.mu)
 //@   requires u.sequence != nil && u.sendBuffer != nil && u.sequence.Current < 4294967295
 //@   ensures result0 != nil && result1 != nil && result0.StreamChunk != nil
 //@   ensures u.sequence == old(u.sequence) && u.sequence.Current == old(u.sequence.Current) + 1
@@ -432,6 +435,7 @@ package iscp
 // buffered data id (never more groups than the buffer holds: nothing is invented).
 //@ func (*Upstream).stateWithoutLock
 //@   props C20
+//@   requires rheld(u.mu)
 //@   requires u.sequence != nil
 //@   ensures result != nil && result.TotalDataPoints == u.totalDataPoints && result.LastIssuedSequenceNumber == u.sequence.Current
 //@   ensures len(result.DataPointsBuffer) == len(u.sendBuffer)
@@ -487,3 +491,11 @@ package iscp
 //@ func (*Upstream).resume$1
 //@   props C02
 //@   assert call SendUpstreamResumeRequest: arg2 != nil && arg2.StreamID == u.ID
+
+// ---------------------------------------------------------------- C09: lock discipline
+//@ guarded[C09] inmemSentStorage.RWMutex: buf
+//@ guarded[C09] inmemStreamRepository.RWMutex: upstream, downstream
+//@ guarded[C09] Conn.upstreamCallAckMu: upstreamCallAckCh
+//@ guarded[C09] Conn.replyCallsChsMu: replyCallChs
+//@ guarded[C09] Upstream.mu: sendBuffer, sendBufferPayloadSize, sendBufferDataPointsCount, upstreamChunkResultChs, revDataIDAliases, dataIDAliases
+//@ guarded[C09] Downstream.mu: dataIDAliases, revDataIDAliases, upstreamInfos, upstreamInfoAckBuffer, dataIDAckBuffer, resultAckBuffer
